@@ -93,16 +93,31 @@ def do_case(ctx, inp):
         big = np.zeros((len(m) * 2, len(m[0]) * 2), dtype=np.int64)
         big[::2, ::2] = np.array(m, dtype=np.int64)
         arr = pnd.integer_ndarray(big)[::2, ::2]
+    elif inp.get("layout") == "C" and dim == 2:
+        # a column selection of a wider labelled table (every second column by fancy indexing): the object still carries
+        # the wider table's labels
+        big = np.zeros((len(m), len(m[0]) * 2), dtype=np.int64)
+        big[:, ::2] = np.array(m, dtype=np.int64)
+        arr = pnd.integer_ndarray(big)[:, list(range(0, len(m[0]) * 2, 2))]
+    elif inp.get("layout") == "P":
+        import pickle as _pickle
+        arr = _pickle.loads(_pickle.dumps(arr))                  # an array that went through a queue / a cache
     # earlier compressions of the very same array object (a caller computing several weightings of one priority array):
     # the judged call below must still answer for the array as the caller wrote it
-    for pm, pa in inp.get("pre", []):
-        arr.ndint_compress(method=pm, axis=pa) if dim > 1 else arr.ndint_compress(method=pm)
-    if dim == 1 and inp.get("axis1d") is not None:
-        res = arr.ndint_compress(method=method, axis=inp["axis1d"])          # a vector with the axis spelled out
-    elif dim == 2 and inp.get("flat"):
-        res = arr.ndint_compress(method=method)                               # axis=None: "the data array is first flattened"
-    else:
-        res = arr.ndint_compress(method=method, axis=axis) if dim > 1 else arr.ndint_compress(method=method)
+    try:
+        for pm, pa in inp.get("pre", []):
+            arr.ndint_compress(method=pm, axis=pa) if dim > 1 else arr.ndint_compress(method=pm)
+        if dim == 1 and inp.get("axis1d") is not None:
+            res = arr.ndint_compress(method=method, axis=inp["axis1d"])          # a vector with the axis spelled out
+        elif dim == 2 and inp.get("flat"):
+            res = arr.ndint_compress(method=method)                               # axis=None: "the data array is first flattened"
+        else:
+            res = arr.ndint_compress(method=method, axis=axis) if dim > 1 else arr.ndint_compress(method=method)
+    except Exception as e:
+        # every integer array has a compression: raising on an array of legal shape — however the caller came by it — is a
+        # wrong answer
+        ctx.case(inp, True, {"compress-raised"})
+        ctx.fail("compress-raised", {"exception": f"{type(e).__name__}: {str(e)[:200]}", "layout": inp.get("layout"), "method": method, "axis": axis}); return
     res = np.asarray(res).tolist()
     flat = m if dim == 1 else [x for r in m for x in r] if dim == 2 else [x for s in m for r in s for x in r]
     if dim == 2 and inp.get("flat"):
@@ -164,7 +179,7 @@ def run(ctx):
         nr, nc = rng.choice([(1, 3), (2, 3), (3, 1), (3, 2), (1, 1), (2, 4), (4, 2)])
         case = {"dim": 2, "method": rng.choice(["prio", "rank", "shadow", "first", "last", "prio", "rank"]), "axis": rng.choice([0, 1]),
                 "m": [[0] * nc for _ in range(nr)]}
-        if rng.random() < 0.3: case["layout"] = rng.choice(["T", "S"])
+        if rng.random() < 0.3: case["layout"] = rng.choice(["T", "S", "C", "P"])
         ctx.tags["all-zero-array"] += 1
         do_case(ctx, case)
     n = (2000 if ctx.quick else 20000) * (3 if ctx.search else 1)
@@ -212,7 +227,7 @@ def run(ctx):
             elif rng.random() < 0.15:
                 case["flat"] = True; case.pop("axis")
             if rng.random() < 0.2:
-                case["layout"] = rng.choice(["T", "T", "S"]); ctx.tags["other-memory-layout"] += 1
+                case["layout"] = rng.choice(["T", "T", "S", "C", "P"]); ctx.tags["other-memory-layout"] += 1
                 if rng.random() < 0.5 and "axis" in case and not case.get("pre"):
                     case["flat"] = True; case.pop("axis")
             do_case(ctx, case)
